@@ -4,7 +4,7 @@ set -u
 cd /verif
 export GOFLAGS=-mod=mod GOPROXY=off GOCACHE=/verif/.cache/go-build GOTOOLCHAIN=auto
 mkdir -p .cache/go-build .work/bin evidence replays
-cp -f /repo/go.sum go.sum
+cat /repo/go.sum go.sum.extra > go.sum
 ids=$(python3 -c "import json;print(' '.join(c['property_id'] for c in json.load(open('MANIFEST.json'))['checks']))")
 fail=0
 build_one() {
